@@ -24,6 +24,7 @@ import (
 	"strings"
 	"sync"
 	"time"
+	"unsafe"
 
 	"cvssmc/internal/dump"
 	"cvssmc/internal/ev"
@@ -85,29 +86,110 @@ type globalSnap struct {
 
 var initialGlobals []globalSnap
 
-func deepCopy(v reflect.Value) reflect.Value {
-	switch v.Kind() {
-	case reflect.Map:
-		if v.IsNil() {
-			return v
-		}
-		n := reflect.MakeMapWithSize(v.Type(), v.Len())
-		it := v.MapRange()
-		for it.Next() {
-			n.SetMapIndex(it.Key(), deepCopy(it.Value()))
-		}
-		return n
-	case reflect.Slice:
-		if v.IsNil() {
-			return v
-		}
-		n := reflect.MakeSlice(v.Type(), v.Len(), v.Cap())
-		for i := 0; i < v.Len(); i++ {
-			n.Index(i).Set(deepCopy(v.Index(i)))
-		}
-		return n
+// deepClone copies a value completely: maps, slices, arrays, structs (unexported fields included,
+// through unsafe), and what pointers and interfaces refer to — preserving aliasing inside one value
+// (memo) — so that a cache, pool or table held BEHIND a package-level pointer is cold again after
+// restoreGlobals, not only one held by value.  Values of types defined outside the library (and
+// outside bytes/strings/container) are shared, not cloned: a *template.Template or a *regexp.Regexp
+// is not library state; functions and channels are shared as well.
+func cloneable(t reflect.Type) bool {
+	p := t.PkgPath()
+	return p == "" || strings.HasPrefix(p, "github.com/goark/go-cvss") || p == "bytes" || p == "strings" || strings.HasPrefix(p, "container/")
+}
+
+func access(v reflect.Value) reflect.Value {
+	if v.CanAddr() && !v.CanSet() {
+		return reflect.NewAt(v.Type(), unsafe.Pointer(v.UnsafeAddr())).Elem()
 	}
-	return v // scalars, strings, structs (by value), pointers and interfaces (shared)
+	return v
+}
+
+func cloneInto(dst, src reflect.Value, memo map[unsafe.Pointer]reflect.Value) {
+	dst, src = access(dst), access(src)
+	switch src.Kind() {
+	case reflect.Struct:
+		if !cloneable(src.Type()) {
+			dst.Set(src)
+			return
+		}
+		if !src.CanAddr() {
+			tmp := reflect.New(src.Type()).Elem()
+			tmp.Set(src)
+			src = tmp
+		}
+		for i := 0; i < src.NumField(); i++ {
+			cloneInto(dst.Field(i), src.Field(i), memo)
+		}
+	case reflect.Array:
+		if !src.CanAddr() {
+			tmp := reflect.New(src.Type()).Elem()
+			tmp.Set(src)
+			src = tmp
+		}
+		for i := 0; i < src.Len(); i++ {
+			cloneInto(dst.Index(i), src.Index(i), memo)
+		}
+	case reflect.Slice:
+		if src.IsNil() {
+			dst.Set(src)
+			return
+		}
+		n := reflect.MakeSlice(src.Type(), src.Len(), src.Cap())
+		for i := 0; i < src.Len(); i++ {
+			cloneInto(n.Index(i), src.Index(i), memo)
+		}
+		dst.Set(n)
+	case reflect.Map:
+		if src.IsNil() {
+			dst.Set(src)
+			return
+		}
+		if m, ok := memo[src.UnsafePointer()]; ok {
+			dst.Set(m)
+			return
+		}
+		n := reflect.MakeMapWithSize(src.Type(), src.Len())
+		memo[src.UnsafePointer()] = n
+		it := src.MapRange()
+		for it.Next() {
+			kv := reflect.New(src.Type().Key()).Elem()
+			cloneInto(kv, it.Key(), memo)
+			vv := reflect.New(src.Type().Elem()).Elem()
+			cloneInto(vv, it.Value(), memo)
+			n.SetMapIndex(kv, vv)
+		}
+		dst.Set(n)
+	case reflect.Ptr:
+		if src.IsNil() || !cloneable(src.Type().Elem()) {
+			dst.Set(src)
+			return
+		}
+		if m, ok := memo[src.UnsafePointer()]; ok {
+			dst.Set(m)
+			return
+		}
+		n := reflect.New(src.Type().Elem())
+		memo[src.UnsafePointer()] = n
+		cloneInto(n.Elem(), src.Elem(), memo)
+		dst.Set(n)
+	case reflect.Interface:
+		if src.IsNil() {
+			dst.Set(src)
+			return
+		}
+		e := src.Elem()
+		n := reflect.New(e.Type()).Elem()
+		cloneInto(n, e, memo)
+		dst.Set(n)
+	default:
+		dst.Set(src) // scalars, strings, funcs, channels, unsafe pointers
+	}
+}
+
+func deepCopy(v reflect.Value) reflect.Value {
+	n := reflect.New(v.Type()).Elem()
+	cloneInto(n, v, map[unsafe.Pointer]reflect.Value{})
+	return n
 }
 
 func snapshotGlobals() {
@@ -123,17 +205,25 @@ func snapshotGlobals() {
 			if !t.CanSet() {
 				continue
 			}
-			// struct values are copied as a whole into a fresh addressable value
-			c := reflect.New(t.Type()).Elem()
-			c.Set(deepCopy(t))
-			initialGlobals = append(initialGlobals, globalSnap{t, c})
+			initialGlobals = append(initialGlobals, globalSnap{t, safeClone(t)})
 		}
 	}
 }
 
+// safeClone: a value the cloner cannot handle is shared as it is (the behaviour before round 6)
+func safeClone(v reflect.Value) (c reflect.Value) {
+	defer func() {
+		if recover() != nil {
+			c = reflect.New(v.Type()).Elem()
+			c.Set(v)
+		}
+	}()
+	return deepCopy(v)
+}
+
 func restoreGlobals() {
 	for _, g := range initialGlobals {
-		g.target.Set(deepCopy(g.value))
+		g.target.Set(safeClone(g.value))
 	}
 }
 
